@@ -721,3 +721,46 @@ fn c04_protect_layout_sha32_p0_modular() { protect_layout_obligation::<0, 0>(Srt
 fn c05_unprotect_hmac80_body10_fixedkey_modular() {
     srtp_hmac_obligation::<10>(SrtpProfile::NullCipherHmac, [0x5a; 20]);
 }
+
+/// the receive-path entry SrtpPacket::parse on a BytesMut whose first octet is literal (V=2, no
+/// CSRC, no extension): header fields and body split exactly after the 12-byte header
+#[kani::proof]
+#[kani::unwind(8)]
+fn c04_srtp_packet_parse_16_literal_b0() {
+    let mut a: [u8; 16] = kani::any();
+    a[0] = 0x80 | (a[0] & 0x20);
+    let sp = SrtpPacket::parse(BytesMut::from(&a[..])).unwrap();
+    assert!(sp.has_padding == (a[0] & 0x20 != 0));
+    assert!(sp.header.marker == (a[1] & 0x80 != 0) && sp.header.payload_type == a[1] & 0x7f);
+    assert!(sp.header.sequence_number == u16::from_be_bytes([a[2], a[3]]) && sp.header.ssrc == u32::from_be_bytes([a[8], a[9], a[10], a[11]]));
+    assert!(sp.header.timestamp == u32::from_be_bytes([a[4], a[5], a[6], a[7]]));
+    assert!(sp.header.csrcs.is_empty() && sp.header.extension.is_none() && sp.body[..] == a[12..]);
+    core::mem::forget(sp);
+}
+
+/// the REAL receive path: protect into a buffer, SrtpPacket::parse on those bytes, unprotect —
+/// header fields, payload and padding come back unchanged (no harness-built SrtpPacket)
+fn full_roundtrip_via_parse<const PL: usize, const PAD: u8, const N: usize>(profile: SrtpProfile) {
+    let ak = [0x5au8; 20];
+    let mut tx = ctx_cm(profile, &ak, [0x11; 16]);
+    let mut rx = ctx_cm(profile, &ak, [0x11; 16]);
+    rx.ssrc = tx.ssrc; rx.rtp_keys.salt = tx.rtp_keys.salt.clone();
+    rx.rollover_counter = tx.rollover_counter; rx.last_sequence = tx.last_sequence;
+    kani::assume(well_formed(&tx) && well_formed(&rx));
+    let pl: [u8; PL] = kani::any();
+    let mut h = RtpHeader::new(kani::any::<u8>() & 0x7f, kani::any(), kani::any(), kani::any());
+    h.marker = kani::any();
+    let pkt = RtpPacket { header: h, payload: static_bytes_of(pl), padding_len: PAD };
+    let mut out = [0u8; N];
+    tx.protect(&pkt, &mut out[..]).unwrap();
+    assert!(out[0] == 0x80 | if PAD != 0 { 0x20 } else { 0 });
+    out[0] = 0x80 | if PAD != 0 { 0x20 } else { 0 };   // same value, written as a literal for constant propagation
+    let sp = SrtpPacket::parse(BytesMut::from(&out[..])).unwrap();
+    let got = rx.unprotect(sp).unwrap();
+    assert!(got.header == pkt.header && got.payload[..] == pl[..] && got.padding_len == PAD);
+    assert!(rx.rollover_counter == tx.rollover_counter && rx.last_sequence == tx.last_sequence);
+    core::mem::forget(got); core::mem::forget(pkt);
+}
+#[kani::proof]
+#[kani::unwind(30)]
+fn c04_full_roundtrip_via_parse_sha80_p2_pad2() { full_roundtrip_via_parse::<2, 2, 26>(SrtpProfile::Aes128Sha1_80); }
